@@ -5,6 +5,7 @@
 //! usage: replay <routine> [args...]   -> one JSON object on stdout
 use std::time::{Duration, Instant};
 
+mod c01;
 mod c05;
 mod c10;
 mod c12;
@@ -21,6 +22,8 @@ fn main() {
         "pos_allow" => c05::pos_allow(rest),
         "rl_window" => c05::rl_window(rest),
         "style_build" => c14::style_build(rest),
+        "first_line_hazard" => c01::first_line_hazard(rest),
+        "cr_hazard" => c01::cr_hazard(rest),
         "pad_field" => c12::pad_field(rest),
         "human_float" => c15::human_float(rest),
         "human_count" => c15::human_count(rest),
